@@ -63,6 +63,11 @@ impl serde::Serializer for Recorder {
     fn is_human_readable(&self) -> bool {
         self.0
     }
+    // a serializer may treat `collect_str` differently from `serialize_str` (the default forwards): String never
+    // calls it
+    fn collect_str<T: ?Sized + std::fmt::Display>(self, _value: &T) -> Result<Rec, RecErr> {
+        Ok(Rec::Other("collect_str"))
+    }
     other!(serialize_bool(bool), serialize_i8(i8), serialize_i16(i16), serialize_i32(i32), serialize_i64(i64), serialize_u8(u8), serialize_u16(u16),
         serialize_u32(u32), serialize_u64(u64), serialize_f32(f32), serialize_f64(f64), serialize_char(char), serialize_bytes(&[u8]));
     fn serialize_none(self) -> Result<Rec, RecErr> {
